@@ -139,6 +139,7 @@ fn parse_cfg(c: &Value) -> (SrvCfg, Value) {
             file_ack: p["file_ack"].as_u64().unwrap_or(0),
             vary: p["vary"].as_bool().unwrap_or(false),
             ackp: p["ackp"].as_bool().unwrap_or(false),
+            tfirst: p["tfirst"].as_bool().unwrap_or(false),
         }
     };
     if c["pic"].is_object() {
@@ -343,7 +344,7 @@ impl Driver {
             }
             "change" => {
                 let subs: Vec<String> = st["subs"].as_array().map(|a| a.iter().map(|x| x.as_str().unwrap_or("").to_string()).collect()).unwrap_or_default();
-                self.m.lock().unwrap().change(&subs);
+                self.m.lock().unwrap().change(&subs, st["extra"].as_u64().unwrap_or(0));
             }
             "wstall" => {
                 let mut s = self.m.lock().unwrap();
@@ -383,7 +384,17 @@ impl Driver {
                     }
                     "garbage" => {
                         s.log.push(json!({"e": "fault", "kind": "garbage", "lost": 0}));
-                        s.emit("garbage", vec![Line::bad(b"!bad\n")]);
+                        s.emit("garbage", vec![Line::bad(b"!bad\n"), Line::f(b"x", b"y"), Line::ok()]);
+                    }
+                    "idleack" => {
+                        // the server refuses the pending idle (only if one is pending)
+                        if s.mode == Mode::Idle && !s.silent {
+                            s.log.push(json!({"e": "fault", "kind": "idleack", "lost": 0}));
+                            s.mode = Mode::Ready;
+                            s.emit("garbage", vec![Line::ack(4, 0, b"idle", b"no permission")]);
+                        } else {
+                            s.log.push(json!({"e": "noop", "why": "no idle pending"}));
+                        }
                     }
                     _ => s.log.push(json!({"e": "noop", "why": "unknown fault"})),
                 }
@@ -480,9 +491,9 @@ pub fn run_one(run: &Value) -> Vec<Value> {
                 "has_srv_pw": scfg.password.is_some(), "srv_pw": scfg.password.clone().unwrap_or_default(),
                 "auth": scfg.auth, "lazy_events": run["cfg"]["lazy_events"].as_bool().unwrap_or(false), "greeting": greeting, "nh": ncallers + if observer_handle { 1 } else { 0 },
                 "pic": {"embedded": sz(&pic.embedded), "file": sz(&pic.file), "hasMime": pic.mime.is_some(), "mime": pic.mime.clone().unwrap_or_default(),
-                        "limit": pic.limit, "embedded_ack": pic.embedded_ack, "file_ack": pic.file_ack, "vary": pic.vary, "ackp": pic.ackp},
+                        "limit": pic.limit, "embedded_ack": pic.embedded_ack, "file_ack": pic.file_ack, "vary": pic.vary, "ackp": pic.ackp, "tfirst": pic.tfirst},
                 "pic2": {"embedded": sz(&pic2.embedded), "file": sz(&pic2.file), "hasMime": pic2.mime.is_some(), "mime": pic2.mime.clone().unwrap_or_default(),
-                        "limit": pic2.limit, "embedded_ack": pic2.embedded_ack, "file_ack": pic2.file_ack, "vary": pic2.vary, "ackp": pic2.ackp}}));
+                        "limit": pic2.limit, "embedded_ack": pic2.embedded_ack, "file_ack": pic2.file_ack, "vary": pic2.vary, "ackp": pic2.ackp, "tfirst": pic2.tfirst}}));
             s.max_read = run["cfg"]["max_read"].as_u64().unwrap_or(0) as usize;
             s.max_write = run["cfg"]["max_write"].as_u64().unwrap_or(0) as usize;
             let gl = Line { t: "greet", k: vec![], v: greeting.clone(), a: 0, b: 0, bytes: greeting.clone() };
